@@ -37,11 +37,13 @@ def monitor_scripts(ctx, infile, implfile):
     sigs = set()
     with open(infile) as fi, open(implfile) as fo:
         for li, lo in zip(fi, fo):
-            if not li.startswith("cscript "):
+            if not li.startswith(("cscript ", "cpscript ")):
                 continue
             sc = ck.Script(li)
             cfg = sc.cfg
             res = ck.parse_output(lo, sc)
+            # the hosts this browser visits: the session cookie must be gone at each of them after a logout
+            hosts = [sc.host] + ([sc.proxy["host"]] if sc.proxy else [])
             own = {cfg.name(k): k for k in ("session", "login", "logout", "retry")}
             own["io.nais.wonderwall.logincount"] = "logincount"
             own["selvbetjening-idtoken"] = "legacy"
@@ -51,9 +53,13 @@ def monitor_scripts(ctx, infile, implfile):
                 history.append(ck.describe_item(sc, it))
                 if it["kind"] != "R":
                     continue
-                case = {"config": cfg.describe(), "history": list(history), "status": r["status"],
+                case = {"config": sc.describe(), "history": list(history), "status": r["status"],
                         "set_cookie": [c for c in r["cookies"]]}
-                mp = matched_ingress_path(sc, it["path"])
+                px = it.get("proxy", False)
+                mp = None if px else matched_ingress_path(sc, it["path"])
+                for col in ck.name_collisions(r["cookies"]):
+                    ctx.violation("c14-cookie-name-collision", "two different cookies of one response share name, domain and path "
+                                  "(the browser keeps only the second: the names do not identify the cookies)", dict(case, collision=col))
                 for c in r["cookies"]:
                     kind = own.get(c["name"])
                     if kind is None:
@@ -86,7 +92,7 @@ def monitor_scripts(ctx, infile, implfile):
                     else:
                         last_set_path.setdefault(kind, set()).discard((c["domain"], c["path"]))
                 # the browser's jar after the response
-                if it["ep"] == "C":
+                if it["ep"] == "C" and not px:
                     left = visible(r["probes"], sc.host, cfg.name("login"))
                     if left:
                         cleared = [(c["domain"], c["path"]) for c in r["cookies"] if own.get(c["name"]) == "login" and c["maxage"] < 0]
@@ -94,16 +100,24 @@ def monitor_scripts(ctx, infile, implfile):
                         case2 = dict(case, jar_still_sends_login_cookie_at=left, login_cookie_was_set_with=was, cleared_with=cleared)
                         ctx.violation(scope_key(was, cleared, "c14-login-cookie-survives-callback"),
                                       "login cookie still in the browser after a completed callback", case2)
-                if it["ep"] in LOGOUT_OK and r["status"] in LOGOUT_OK[it["ep"]]:
-                    left = visible(r["probes"], sc.host, cfg.name("session"))
-                    if left:
+                # through the SSO proxy: local and front-channel logout are logouts (relayed to the server); its /oauth2/logout only
+                # sends the browser on to the server
+                if it["ep"] in LOGOUT_OK and r["status"] in LOGOUT_OK[it["ep"]] and not (px and it["ep"] == "O"):
+                    left = [u for h in hosts for u in visible(r["probes"], h, cfg.name("session"))]
+                    if left and px:
+                        ctx.violation("c14-session-cookie-survives-logout-via-sso-proxy",
+                                      "session cookie still in the browser after a logout at the application's origin (SSO proxy, relayed to the "
+                                      "SSO server) that answered with success",
+                                      dict(case, jar_still_sends_session_cookie_at=left,
+                                           session_cookie_was_set_with=sorted(last_set_path.get("session", ()))))
+                    elif left:
                         cleared = [(c["domain"], c["path"]) for c in r["cookies"] if own.get(c["name"]) == "session" and c["maxage"] < 0]
                         was = sorted(last_set_path.get("session", ()))
                         case2 = dict(case, jar_still_sends_session_cookie_at=left, session_cookie_was_set_with=was, cleared_with=cleared)
                         key = scope_key(was, cleared, "c14-session-cookie-survives-logout")
                         ctx.violation(key, "session cookie still in the browser after a logout that answered with success "
                                            "(cleared with a different Path than it was set with)", case2)
-                if it["ep"] == "B" and r["status"] == 302:
+                if it["ep"] == "B" and r["status"] == 302 and not px:
                     left = visible(r["probes"], sc.host, cfg.name("logout"))
                     if left:
                         ctx.violation("c14-logout-cookie-survives", "logout cookie still in the browser after the logout callback",
@@ -153,6 +167,7 @@ def run(ctx):
                 "validation: secure x same-site x ingress pairs; MatchingPath: ingress-path sets x all request paths over {/,a,b,o,p} up to 5; "
                 "browser histories: every accepted configuration (secure x ingress sets incl. nested and multi-host x SSO x same-site x prefix x legacy) "
                 "x every endpoint x success and error paths x set/clear under every pair of ingress paths + random histories; "
+                "SSO deployments with both parties (real SSO proxy in front of the real SSO server router, shared store, one jar for the SSO domain): login at the server, every logout variant through the proxy and at the server, relayed error paths, random mixes; cookie names of pkg/cookie after main.go's configuration for prefix x SSO x session-cookie-name; "
                 "cookie jar: exhaustive single Set-Cookie over hosts x domains x paths x secure + random sequences with expiry; "
                 "distinct_nontrivial counts distinct (cookie kind, set/clear, scope, attributes, mode, endpoint, status) signatures")
     ctx.assumptions += [
